@@ -79,7 +79,7 @@ def run_driver(config="lib", verbose=True):
             return out, True, time.time() - t0
         # drop stale fact files of this config (keep disk small) -- but never one a concurrent check of another tree may be about to read:
         # the newest KEEP files and everything younger than 15 minutes stay
-        KEEP = 8
+        KEEP = 400      # ~7 MB each: the thorough tier's self-tests re-analyse the same ~500 scratch trees for every property
         old = sorted((os.path.getmtime(os.path.join(CACHE, f)), f) for f in os.listdir(CACHE)
                      if f.startswith(f"facts-{config}-") and f.endswith(".json"))
         for mt, f in old[:-KEEP] if len(old) > KEEP else []:
